@@ -323,11 +323,17 @@ func c18prop(r *simkit.Run) {
 	w := newWorld(r, cfg)
 	defer w.sim.Shutdown()
 	w.abandoned = drawAbandoned(rt)
-
 	latencies := []time.Duration{5 * time.Millisecond, 50 * time.Millisecond, 500 * time.Millisecond, 5 * time.Second}
 	statuses := []int{200, 200, 201, 404, 500, 502, 503, 504, 0}
 	nops := rapid.IntRange(5, deep(100, 350)).Draw(rt, "ops")
-	longCycles := rapid.IntRange(0, 4).Draw(rt, "long-cycles") == 0
+	lc := rapid.IntRange(0, 4).Draw(rt, "long-cycles")
+	longCycles := lc == 0
+	// in some runs a backend may also hang for hours before it answers (such a response empties every window, so
+	// these stay a minority of the runs; no draw of its own: the run shapes of all other runs stay what they were)
+	hangs := lc == 3
+	if hangs {
+		latencies = append(latencies, 59*time.Minute, 61*time.Minute, 2*time.Hour, 30*time.Hour)
+	}
 	for i := 0; i < nops; i++ {
 		var kinds []string
 		if len(w.reqs) < 70 {
@@ -353,8 +359,7 @@ func c18prop(r *simkit.Run) {
 			w.sim.RunTask(q.task)
 			if _, ok := q.task.Parked(); ok {
 				lat := rapid.SampledFrom(latencies).Draw(rt, "latency")
-				if rapid.IntRange(0, 11).Draw(rt, "backend-hangs-for-hours") == 0 {
-					lat = rapid.SampledFrom([]time.Duration{59 * time.Minute, 61 * time.Minute, 2 * time.Hour, 30 * time.Hour}).Draw(rt, "hang")
+				if lat > 30*time.Minute {
 					w.r.Probe("response-after-more-than-an-hour")
 				}
 				w.advance(lat)
